@@ -355,6 +355,10 @@ def run_sharded(prop, binary, args, cases, seed, tier, nshards, timeout_s, repla
                     elif os.path.exists(fp):
                         merged[suf + "_overflow"] = True
                 return merged
+            if rc == 2 and not hung:
+                with open(errp, errors="replace") as fh:
+                    merged["inconclusive"] = "harness of shard %d gave up (exit 2): %s" % (shard, fh.read()[-800:])
+                return merged
             # crash or hang: which case?
             idx = None
             try:
